@@ -376,7 +376,8 @@ func init() {
 	drv.Register(&drv.Prop{
 		ID: "C05", Level: "exploration", Parallel: 10, Batch: 8, MinConclusive: 50,
 		Rule: "sessions (manual and periodic checkpointing; custom recording/blocking/failing store, real couchbase-xattr store with scripted write faults, real file store) with deferred/out-of-order acknowledgements; " +
-			"acknowledgements placed before the dump, inside a held store call and after it; overlapping explicit saves; rejected and timed-out saves followed by successful ones; vBuckets advanced only by system / seqno-advanced events. " +
+			"acknowledgements placed before the dump, inside a held store call and after it; overlapping explicit saves; rejected and timed-out saves followed by successful ones; vBuckets advanced only by system / seqno-advanced events; " +
+			"after a rebalance with automatic checkpointing: a periodic save held inside the store call while a newer acknowledgement of the same vBucket is committed explicitly. " +
 			"Oracle at each barrier (all deliveries observed, no save in flight): Commit() returns => for every vBucket advanced by an acknowledgement or non-document event, flagged <= stored seqno <= settled; a second Commit() performs 0 writes. " +
 			"Non-trivial: an acknowledgement between md.save.call and md.save.ret, or a failing save, or a vBucket advanced only by non-document events; distinct = distinct abstract traces",
 		Assumptions: []string{"settled is cumulative per vBucket (DESIGN §3 rule 1)", "a reserved-key event advances the position without obliging a save (C14), so the stored value may lie between the flagged and the settled position"},
